@@ -270,6 +270,18 @@ def build(model, db):
                             'Doc': dict(id=(1, 1), classtype=(1, 0), number=(1, 0), ref=(1, 0), year=(0, 0))},
                     unique={'Stu': [('serial',), ('serial', 'code'), ('nick',)], 'Lone': [('alias',)], 'Doc': [('number',), ('ref',), ('year', 'ref')]},
                     indexes={'Doc': [('year', 'number')]}, fks={'Stu': [(('grp',), 'Grp')]})
+    if model == 'on_delete_actions':
+        # every kind of reference, declared in a root entity and in a SUBCLASS (where the column is nullable whatever the declaration says)
+        class Owner(db.Entity):
+            kept = Set('Thing', reverse='keeper', cascade_delete=False); owned = Set('Thing', reverse='owner'); opt = Set('Thing', reverse='maybe')
+            badge = Opt('Thing', reverse='badge_of'); s_kept = Set('SubThing', reverse='s_keeper', cascade_delete=False); s_owned = Set('SubThing', reverse='s_owner')
+            s_opt = Set('SubThing', reverse='s_maybe'); s_badge = Opt('SubThing', reverse='s_badge_of'); s_casc = Opt('SubThing', reverse='s_casc_of', cascade_delete=True)
+        class Thing(db.Entity):
+            keeper = Req(Owner, reverse='kept'); owner = Req(Owner, reverse='owned'); maybe = Opt(Owner, reverse='opt'); badge_of = Req(Owner, reverse='badge')
+        class SubThing(Thing):
+            s_keeper = Req(Owner, reverse='s_kept'); s_owner = Req(Owner, reverse='s_owned'); s_maybe = Opt(Owner, reverse='s_opt'); s_badge_of = Req(Owner, reverse='s_badge')
+            s_casc_of = Req(Owner, reverse='s_casc')
+        return None
     if model == 'reference_cycles':
         # foreign keys in both directions between two tables (one of them composite), in both alphabetical orders: whichever table is created first, the key that
         # points at the later one can only be added afterwards
@@ -294,7 +306,7 @@ def build(model, db):
     raise KeyError(model)
 
 
-SQLITE_MODELS = ['attributes', 'relationships', 'inheritance', 'custom_names', 'long_names_distinct', 'long_entity_names', 'unique_key_parts']
+SQLITE_MODELS = ['attributes', 'relationships', 'inheritance', 'custom_names', 'long_names_distinct', 'long_entity_names', 'unique_key_parts', 'on_delete_actions']
 DDL_MODELS = ['attributes', 'relationships', 'inheritance', 'custom_names', 'long_names', 'long_names_distinct', 'qualified', 'explicit_pk_no_sequences', 'long_entity_names', 'reference_cycles', 'unique_key_parts']
 MAY_REJECT = ('long_names', 'long_names_distinct')          # names that collide after truncation to the dialect limit: refusing the mapping is the stated behaviour
 
@@ -325,10 +337,22 @@ def _sl_case(cfg, values):
                 fks = {}
                 for r in q('PRAGMA foreign_key_list("%s")' % t):
                     fks.setdefault(r[0], [r[2], [], []]); fks[r[0]][1].append(r[3]); fks[r[0]][2].append(r[4])
+                    st.setdefault('fk_actions', {})[(t, r[3])] = r[6]
                 cat[t] = dict(cols=cols, idx=idx, fks=sorted((tuple(v[1]), v[0], tuple(v[2])) for v in fks.values()))
             st['cat'] = cat
             st['all_names'] = [r[0] for r in q("select name from sqlite_master where name not like 'sqlite_%'")]
             # the entity model as pony sees it
+            # what a DELETE of the referenced row does, as the declarations say: cascade_delete on the collection side -> CASCADE; an Optional reference -> SET NULL;
+            # a Required reference -> the delete is refused (no action), also when its column is nullable only because it is declared in a subclass
+            want = {}
+            for e in db.entities.values():
+                for attr in e._new_attrs_:
+                    if attr.is_collection or not attr.reverse or not attr.columns: continue
+                    t = e._root_._table_ if isinstance(e._root_._table_, str) else e._root_._table_[-1]
+                    act = 'CASCADE' if attr.reverse.cascade_delete else 'SET NULL' if isinstance(attr, orm.Optional) else 'NO ACTION'
+                    for c in attr.columns: want[(t, c)] = act
+            st['on_delete_expected'] = want
+            st['on_delete_found'] = dict(st.get('fk_actions', {}))
             st['model'] = {}
             for e in db.entities.values():
                 if e._root_ is not e: continue
@@ -356,6 +380,8 @@ def _sl_spec(cfg, i, path):
     if len(names) != len(set(n.lower() for n in names)): return False                        # distinct names
     for t, cols in st['model'].items():                                                        # one column per mapped attribute column
         if t not in cat or sorted(cat[t]['cols']) != sorted(cols): return False
+    for key, act in st['on_delete_expected'].items():                                          # the ON DELETE action of every foreign key follows the declaration
+        if st['on_delete_found'].get(key) != act: return False
     if ex is None: return True
     if set(ex['tables']) != set(cat): return False
     for t, cols in ex['tables'].items():
